@@ -6,6 +6,9 @@ Q_IntBodies == {"noop", "rm"}
 T_Bodies == {"noop", "rmself", "rm", "panic", "addfg", "addbg"}
 T_IntBodies == {"noop", "rm", "addbg"}
 S_Names == {"a", "A", "b", "ab", "Ab", "aB"}
+\* the alphabet: one registration under each spelling, events under each spelling
+N_Names == {SubSeq(Upper, i, i) : i \in 1..26} \cup {SubSeq(Lower, i, i) : i \in 1..26} \cup {"x" \o SubSeq(Upper, i, i) : i \in 1..26}
+N_Bodies == {"noop"}
 StateRec == [regs |-> regs, nextId |-> nextId, gone |-> gone]
 Emit == PrintT("EDGE " \o ToJson([f |-> StateRec, o |-> lastOp', t |-> StateRec']))
 View == state
